@@ -63,6 +63,12 @@ class Sim:
             if attempt in node[2] or not node[2]:
                 return ("err", node[1], f"{path}#{attempt}")
             return ("ok", 100 + attempt)
+        if kind == "par":
+            tot = node[1]
+            for d in node[3]:
+                m = {"a": 0, "b": 10, "c": 100, **node[2], **d}
+                tot += m["a"] + m["b"] + m["c"]
+            return ("ok", tot)
         total = node[1]
         if kind == "sum":
             for i, ch in enumerate(node[2]):
@@ -84,10 +90,15 @@ def prog_strategy(flavour: str):
     from hypothesis import strategies as st
 
     attempts = st.sampled_from([[], [1], [1, 2], [2], [1, 2, 3]])
-    leaf = st.one_of(
+    argd = st.dictionaries(st.sampled_from(["a", "b", "c"]), st.integers(1, 9), max_size=3)
+    leaves = [
         st.builds(lambda v: ["ret", v], st.integers(0, 9)),
         st.builds(lambda k, a: ["raise", k, a], st.sampled_from(["retry", "retriable", "value", "app"]), attempts),
-    )
+    ]
+    if flavour != "direct":
+        # parallelize(..., common_args=...) with heterogeneous per-call dicts (at least one common argument: the documented use)
+        leaves.append(st.builds(lambda b, common, calls: ["par", b, common, calls], st.integers(0, 9), st.dictionaries(st.sampled_from(["a", "b", "c"]), st.integers(1, 9), min_size=1, max_size=2), st.lists(argd, min_size=1, max_size=3)))
+    leaf = st.one_of(*leaves)
     kinds = ["sum"] if flavour == "direct" else ["sum", "group"]
     return st.recursive(leaf, lambda ch: st.builds(lambda kind, base, kids: [kind, base, kids], st.sampled_from(kinds), st.integers(0, 9), st.lists(ch, min_size=1, max_size=2)), max_leaves=4)
 
@@ -99,6 +110,8 @@ def has(node: Any, kind: str) -> bool:
 
 
 def group_size(node: Any) -> int:
+    if node[0] == "par":
+        return len(node[3])
     if node[0] == "group":
         return max(len(node[2]), max((group_size(c) for c in node[2]), default=0))
     if node[0] == "sum":
@@ -133,6 +146,7 @@ def register(app: Any, flavour: str, max_retries: int, retry_for: tuple[str, ...
         tasks.HOOKS["dprog_call"] = wrapper
         app.task(tasks.prog, **opts)
         return wrapper
+    app.task(tasks.opt3)
     return app.task(tasks.prog, **opts)
 
 
@@ -155,7 +169,7 @@ def run_sync(node: Any, flavour: str, max_retries: int, retry_for: tuple[str, ..
     return out, dict(tasks.RUNS)
 
 
-def run_dist(kind: str, node: Any, flavour: str, max_retries: int, retry_for: tuple[str, ...], clock: Any, det: Any, shared: dict) -> tuple[Any, dict, Any]:
+def run_dist(kind: str, node: Any, flavour: str, max_retries: int, retry_for: tuple[str, ...], clock: Any, det: Any, shared: dict, policy: Any = None, extra_trace: tuple[str, ...] = (), max_steps: int = 400_000, stall: tuple[int, int] = (4000, 8)) -> tuple[Any, dict, Any]:
     from pynenc import context
 
     det.reset()
@@ -180,12 +194,16 @@ def run_dist(kind: str, node: Any, flavour: str, max_retries: int, retry_for: tu
     rid = root.invocation_id
 
     def stop(env):
-        return app.orchestrator.get_invocation_status(rid).is_final()
+        # the whole program has ended: the root and every invocation it created are final (a failed group member makes
+        # the root final while its siblings still run; stopping the runner then would strand them - C11's business)
+        if not app.orchestrator.get_invocation_status(rid).is_final():
+            return False
+        return all(app.orchestrator.get_invocation_status(i).is_final() for i in app.orchestrator.get_invocation_ids_paginated(limit=200))
 
     def watch():
         return list(app.orchestrator.get_invocation_ids_paginated(limit=60))
 
-    env = RH.run_on_thread_runner(kind, app, clock, sched.RoundRobin(3), stop, slots=2, watch_ids=watch, max_steps=400_000)
+    env = RH.run_on_thread_runner(kind, app, clock, policy or sched.RoundRobin(3), stop, slots=2, watch_ids=watch, max_steps=max_steps, extra_trace=extra_trace, stall=stall)
     if env.failure is not None or getattr(env, "deadline", False):
         return None, dict(tasks.RUNS), env
     st_ = app.orchestrator.get_invocation_status(rid).name
@@ -230,7 +248,7 @@ def shard(seed: int, examples: int, flavour: str, known: list[str]) -> dict:
             outs[kind] = (d_out, d_runs)
         nt = (has(node, "sum") or has(node, "group")) and has(node, "raise") or group_size(node) >= 2
         part.case(key=(node, flavour, max_retries, rf), nontrivial=nt, classes=[f"flavour_{flavour}", f"retries{max_retries}", f"retry_for_{rf}", "has_raise" if has(node, "raise") else "pure",
-                  "nested" if node[0] != "ret" and node[0] != "raise" else "leaf", "group" if has(node, "group") else "no_group"],
+                  "nested" if node[0] not in ("ret", "raise", "par") else "leaf", "group" if has(node, "group") else "no_group", "common_args" if has(node, "par") else "no_common_args"],
                   sample={**rep.holder["case"], "expected": str(exp)[:80], "runs": s_runs})
         deterministic = raise_under_sum_only(node)
         # 1. denotation (only where the program's outcome does not depend on completion order inside a group)
@@ -260,18 +278,98 @@ def shard(seed: int, examples: int, flavour: str, known: list[str]) -> dict:
     return part.dump()
 
 
+RULE_R = (
+    "retry programs (a leaf that always / on attempts 1..k raises RetryError or a retriable error, alone or under a sum) x max_retries 1..2, executed on Mem and SQLite "
+    "with the real ThreadRunner (2 slots) under PCT schedules (random priorities, 2 priority change points; yields at source lines of the retry path and "
+    "the Mem components, or at SQL statements); oracle: outcome and body-execution count per node equal the retry-rule denotation (= sync mode); "
+    "non-trivial = a retry happened and another actor ran between the failing attempt's first and last backend write; distinct = (backend, program, max_retries, PCT seed)"
+)
+
+RETRY_PROGRAMS = [
+    (["raise", "retry", []], 1),
+    (["raise", "retry", []], 2),
+    (["raise", "retry", [1]], 1),
+    (["raise", "retriable", [1, 2]], 2),
+    (["sum", 1, [["raise", "retry", []]]], 1),
+    (["sum", 1, [["raise", "retry", [1]], ["ret", 2]]], 1),
+]
+RETRY_TRACE = ("pynenc/orchestrator/base_orchestrator.py", "pynenc/orchestrator/mem_orchestrator.py", "pynenc/broker/mem_broker.py")
+
+
+def retry_sched_shard(kind: str, seed: int, runs: int, known: list[str]) -> dict:
+    import random
+
+    part = Part("retry-schedules", RULE_R)
+    clock, cinst, inst, det = RH.install_all("sqlite")
+    shared: dict = {}
+    est: dict[int, int] = {}
+    try:
+        for i in range(runs):
+            pi = i % len(RETRY_PROGRAMS)
+            node, mr = RETRY_PROGRAMS[pi]
+            rf = ("retriable",)
+            sim = Sim(mr, rf)
+            exp = sim.call(node, "r")
+            if pi not in est:
+                _, _, env0 = run_dist(kind, node, "plain", mr, rf, clock, det, shared, extra_trace=RETRY_TRACE if kind == "mem" else ())
+                est[pi] = max(50, env0.steps)
+            pseed = seed * 1_000_003 + i
+            policy = sched.PCT(random.Random(pseed), 2, est[pi])
+            o, runs_seen, env = run_dist(kind, node, "plain", mr, rf, clock, det, shared, policy=policy, extra_trace=RETRY_TRACE if kind == "mem" else (), max_steps=40 * est[pi], stall=(10 * est[pi], 3))
+            case = {"backend": kind, "program": node, "max_retries": mr, "pct_seed": pseed, "est_steps": est[pi]}
+            if o is None:
+                part.event("inconclusive_schedule")
+                if len(part.notes) < 3:
+                    part.notes.append(f"inconclusive schedule ({kind}, program {pi}): {str(env.failure)[:100]}")
+                continue
+            retried = any(v > 1 for v in runs_seen.values())
+            part.case(key=(kind, pi, pseed), nontrivial=retried, classes=[f"backend_{kind}", f"program_{pi}", "retried" if retried else "no_retry"], sample={**case, "runs": runs_seen})
+            problems = []
+            if runs_seen != sim.runs:
+                problems.append(("retry-schedules:runs-vs-denotation", f"[{kind}] body executions {runs_seen} but the retry rules (and sync mode) give {sim.runs} for {node} max_retries={mr}"))
+            if exp[0] == "ok" and not (o[0] == "ok" and o[1] == exp[1]):
+                problems.append(("retry-schedules:value-vs-denotation", f"[{kind}] outcome {normalise(o) if o[0] != 'status' else o} but the program denotes {exp}"))
+            if exp[0] == "err" and not (o[0] == "err" and type(o[1]) is exc_class(exp[1])):
+                problems.append(("retry-schedules:error-vs-denotation", f"[{kind}] outcome {normalise(o) if o[0] != 'status' else o} but the program denotes a {exp[1]} error"))
+            for key, msg in problems:
+                if key in known:
+                    part.known(key)
+                else:
+                    part.violation(key, msg, case)
+    finally:
+        inst.uninstall()
+        cinst.uninstall()
+    return part.dump()
+
+
 def run(ctx: Ctx) -> None:
     known = sorted(ctx.known_keys())
     n = ncpu()
     ex = 20 if ctx.quick else 400
     jobs = [(ctx.seed * 100 + k, ex, "plain" if k % 4 else "direct", known) for k in range(n)]
     merge_parts(ctx, pmap(shard, jobs))
+    per = 36 if ctx.quick else 1500
+    merge_parts(ctx, pmap(retry_sched_shard, [(kind, ctx.seed * 100 + k, per, known) for k in range(n // 2) for kind in ("mem", "sqlite")]))
     ctx.assumptions.append("group results are compared as sums (order-insensitive); programs with a raise below a group are compared by outcome class only (which failing member surfaces first depends on completion order)")
     ctx.assumptions.append("body executions are counted per program node by the interpreter task (process-local table)")
 
 
 def replay(case: dict) -> int:
     c = case["case"]
+    if "pct_seed" in c:
+        import random
+
+        clock, cinst, inst, det = RH.install_all("sqlite")
+        try:
+            sim = Sim(c["max_retries"], ("retriable",))
+            sim.call(c["program"], "r")
+            o, runs_seen, env = run_dist(c["backend"], c["program"], "plain", c["max_retries"], ("retriable",), clock, det, {}, policy=sched.PCT(random.Random(c["pct_seed"]), 2, c["est_steps"]),
+                                        extra_trace=RETRY_TRACE if c["backend"] == "mem" else ())
+            print("runs", runs_seen, "denotation", sim.runs)
+            return 1 if runs_seen != sim.runs else 0
+        finally:
+            inst.uninstall()
+            cinst.uninstall()
     flavour, mr, rf = c["flavour"], c["max_retries"], RETRY_FOR[c["retry_for"]]
     sim = Sim(mr, rf)
     print("denotation:", sim.call(c["program"], "r"), sim.runs)
